@@ -590,6 +590,32 @@ def _exception_exits_reset(repo: Repo, eff: Effects, f):
     return True, "inline try/except-reset-raise"
 
 
+def _argument_roots(repo: Repo, eff: Effects, f, index: int):
+    """(surviving-state root, call site) for every call of f in the package whose argument for parameter `index` is rooted in surviving state"""
+    params = [a.arg for a in f.node.args.args]
+    if index >= len(params):
+        return []
+    pname = params[index]
+    is_method = f_cls(f) is not None and params[:1] in (["self"], ["cls"])
+    out = []
+    for g in repo.all_functions():
+        genv = eff._env_cache.get(g.qual, {})
+        glocals = eff._locals_of(g)
+        for c in walk_no_nested(g.node):
+            if not (isinstance(c, ast.Call) and call_name(c) == f.name):
+                continue
+            pos = index - (1 if is_method else 0)
+            a = c.args[pos] if 0 <= pos < len(c.args) and not any(isinstance(x, ast.Starred) for x in c.args[:pos + 1]) else None
+            if a is None:
+                a = next((k.value for k in c.keywords if k.arg == pname), None)
+            if a is None:
+                continue
+            for r in eff.roots(g, a, genv, glocals):
+                if r[:2] in ("G:", "K:", "S:"):
+                    out.append((r, f"{g.short}:{c.lineno}"))
+    return out
+
+
 def _check_alias_stores(col: Collector, repo: Repo, eff: Effects, covered):
     """REG[k] = <expr rooted in another surviving cell> without a copy: later writes to REG[k][..] then land in that cell."""
     n_sites = 0
@@ -605,7 +631,12 @@ def _check_alias_stores(col: Collector, repo: Repo, eff: Effects, covered):
                         if not troots:
                             continue
                         n_sites += 1
-                        vroots = {r for r in eff.roots(f, n.value, env, local_names) if not r.startswith("P") and r not in troots}
+                        all_v = eff.roots(f, n.value, env, local_names)
+                        vroots = {r for r in all_v if not r.startswith("P") and r not in troots}
+                        # a stored parameter (or something reached from one) is whatever the callers pass: surviving state handed in by a
+                        # caller is stored by reference just the same
+                        for pr in sorted(r for r in all_v if r.startswith("P") and r[1:].isdigit()):
+                            vroots |= {f"{r} (argument {pr[1:]} at {site})" for r, site in _argument_roots(repo, eff, f, int(pr[1:])) if r not in troots}
                         col.add("C07.R5", f.short, f"store-into:{sorted(troots)[0]}", not vroots,
                                 f"`{src(n)[:70]}` stores into a reset-able registry a value "
                                 + (f"reachable from surviving state {sorted(vroots)} by reference: entries added later are written into that "
